@@ -6,9 +6,15 @@ resolution (either sign per axis), anchor, tight, tol and requested shapes, exec
 
 Oracle: exact rational arithmetic (``fractions.Fraction``) on the binary64 inputs and on the binary64
 numbers read back from the resulting affine.  Covering, minimality and alignment are statements
-about real numbers; where the implementation's own binary64 rounding may legitimately move an edge
-by a few ulp the DESIGN section 3 "R" tolerance ``1e-9*(|value| + pixel)`` (world units) is added to
-the comparison - nothing else is tolerated.
+about real numbers; the implementation's own binary64 rounding (x/res, k*res, +offset: a handful of
+roundings, each half an ulp of a coordinate) may legitimately move an edge, so every comparison
+carries ``8 ulp(largest coordinate involved) + 1e-9 pixel`` - nothing else is tolerated.  (The
+DESIGN section 3 "R" tolerance 1e-9*|coordinate| is NOT used: at 5e5 m it is a hundred pixels of a
+4.5e-6 grid.)
+
+Besides the judged clauses there are differential clauses: the same value in another encoding, the
+same request through another entry point, and the same request after a history of other operations
+on the same objects must give the identical GeoBox.
 """
 from __future__ import annotations
 
@@ -21,21 +27,26 @@ from vf.core import R
 PROPERTY = "C08"
 LEVEL = "exploration"
 
+import numpy as np  # noqa: E402
 import pyproj  # noqa: E402
 
 from odc.geo import geom  # noqa: E402
+from odc.geo import geobox as gbx  # noqa: E402
 from odc.geo.geobox import GeoBox  # noqa: E402
 from odc.geo.geom import BoundingBox  # noqa: E402
-from odc.geo.types import AnchorEnum, resxy_, xy_  # noqa: E402
+from odc.geo.crs import CRS  # noqa: E402
+from odc.geo.types import AnchorEnum, resxy_, wh_, xy_  # noqa: E402
 from affine import Affine  # noqa: E402
 
 E9 = Fr(1, 10**9)
+U49 = Fr(1, 2**49)
 CRS0 = "epsg:3857"
 
 
-def eps(v, p):
-    """DESIGN section 3, alphabet R: 1e-9 * (|value| + pixel size), world units."""
-    return E9 * (abs(v) + p)
+def slack(m, p):
+    """Room for the implementation's own binary64 rounding: 8 ulp of the largest coordinate
+    involved (m) plus 1e-9 of a pixel (p)."""
+    return U49 * m + E9 * p
 
 
 # ---------------------------------------------------------------------------------------------
@@ -47,6 +58,10 @@ def anchor_arg(enc):
         if enc[0] == "xy":
             _, ax, ay = enc
             return xy_(ax, ay), (ax, ay), "xy"
+        if enc[0] == "np":  # numpy double: a float subclass
+            return np.float64(enc[1]), (enc[1], enc[1]), ("edge" if enc[1] == 0 else "center" if enc[1] == 0.5 else "frac")
+        if enc[0] == "xyi":  # XY of python ints
+            return xy_(int(enc[1]), int(enc[2])), (float(enc[1]), float(enc[2])), "xy"
         if enc[0] == "enum":
             e = AnchorEnum[enc[1]]
             return e, {"EDGE": (0.0, 0.0), "CENTER": (0.5, 0.5), "FLOATING": None}[enc[1]], enc[1].lower()
@@ -80,7 +95,7 @@ def _edge_state(u_lo, u_hi, e_lo, e_hi):
     return "exact"
 
 
-def axis_res(r, kp, ax, x0, x1, rq, a, tol, c, n, ro, what, check_size=True):
+def axis_res(r, kp, ax, x0, x1, rq, a, tol, c, n, ro, what, check_size=True, m0=0):
     """Resolution-driven construction, one axis.
 
     x0 <= x1: region (exact); rq: requested signed pixel size; a: anchor fraction or None (no
@@ -98,7 +113,7 @@ def axis_res(r, kp, ax, x0, x1, rq, a, tol, c, n, ro, what, check_size=True):
     X0, X1, P, C, T = Fr(x0), Fr(x1), abs(Fr(ro)), Fr(c), Fr(tol)
     far = C + n * Fr(ro)
     lo, hi = min(C, far), max(C, far)
-    e_lo, e_hi = eps(X0, P), eps(X1, P)
+    e_lo = e_hi = e = slack(max(abs(X0), abs(X1), abs(C), abs(far), m0), P)
     u_lo, u_hi = lo - X0, X1 - hi  # > 0: that much of the region is not covered
     # covers the region except at most tol of a pixel per side
     if u_lo > T * P + e_lo:
@@ -122,14 +137,14 @@ def axis_res(r, kp, ax, x0, x1, rq, a, tol, c, n, ro, what, check_size=True):
     if a is None:
         # snapping off: the grid is not moved, it starts on the region's edge
         org = X0 if ro > 0 else X1
-        if abs(C - org) > eps(org, P):
+        if abs(C - org) > e:
             r.fail(f"floating-origin:{kk}",
                    f"{what}: snapping is off but {ax} origin {c!r} is {float((C - org) / P):.9g} px away "
                    f"from the region edge {float(org)!r}")
     else:
         q = C / P - Fr(a)
         d = abs(q - round(q)) * P
-        if d > eps(C, P):
+        if d > e:
             r.fail(f"alignment:{kk}",
                    f"{what}: {ax} pixel edges sit at fraction {float((C / P) % 1):.9g} of a pixel from "
                    f"the CRS origin, requested {a!r} (origin {c!r}, pixel {float(P)!r})")
@@ -148,13 +163,13 @@ def axis_shape(r, kp, ax, x0, x1, nreq, want_neg, a, c, n, ro, what):
     if (ro < 0) != want_neg or ro == 0:
         r.fail(f"orientation:{kk}", f"{what}: {ax} pixel size {ro!r} has the wrong sign")
         return "badsign"
-    if abs(P - pexp) > eps(pexp, pexp):
+    if abs(P - pexp) > pexp / 2**50:  # two correctly rounded operations: (x1 - x0) / n
         r.fail(f"pixel-size:{kk}",
                f"{what}: {ax} pixel size {ro!r} but span/shape = {float(pexp)!r}")
         return "badsize"
     far = C + n * RO
     lo, hi = min(C, far), max(C, far)
-    e_lo, e_hi = eps(X0, P), eps(X1, P)
+    e_lo = e_hi = slack(max(abs(X0), abs(X1), abs(C), abs(far)), P)
     d_lo, d_hi = lo - X0, hi - X1
     if a is None:
         if abs(d_lo) > e_lo or abs(d_hi) > e_hi:
@@ -168,17 +183,17 @@ def axis_shape(r, kp, ax, x0, x1, nreq, want_neg, a, c, n, ro, what):
                f"{float(d_lo / P):.9g} px from the region [{float(X0)!r}, {float(X1)!r}]")
     q = C / P - Fr(a)
     d = abs(q - round(q)) * P
-    tol_al = eps(C, P)
+    tol_al = e_lo
     if d > tol_al:
         r.fail(f"alignment:{kk}",
                f"{what}: {ax} pixel edges sit at fraction {float((C / P) % 1):.9g} of a pixel from "
                f"the CRS origin, requested {a!r} (origin {c!r}, pixel {float(P)!r})")
     if 4 * tol_al >= P:
-        return "snapped:unresolvable"  # origin/pixel > 2.5e8: the R tolerance exceeds a quarter pixel
+        return "snapped:unresolvable"  # origin/pixel > 2**47: rounding slack exceeds a quarter pixel
     return "snapped:moved" if abs(d_lo) > e_lo else "snapped:inplace"
 
 
-def judge(r, fn, gbox, region, mode, req, axy, tol, aclass, what, crs=None):
+def judge(r, fn, gbox, region, mode, req, axy, tol, aclass, what, crs=None, m0=0):
     """Judge one constructed GeoBox; returns the outcome label."""
     x0, y0, x1, y1 = region
     A = gbox.affine
@@ -192,8 +207,8 @@ def judge(r, fn, gbox, region, mode, req, axy, tol, aclass, what, crs=None):
     kp = f"{aclass}:{fn}:{mode}"
     if mode == "res":
         rx, ry = req
-        lx = axis_res(r, kp, "x", x0, x1, rx, ax_, tol, A.c, nx, A.a, what)
-        ly = axis_res(r, kp, "y", y0, y1, ry, ay_, tol, A.f, ny, A.e, what)
+        lx = axis_res(r, kp, "x", x0, x1, rx, ax_, tol, A.c, nx, A.a, what, m0=m0)
+        ly = axis_res(r, kp, "y", y0, y1, ry, ay_, tol, A.f, ny, A.e, what, m0=m0)
     elif mode == "shape":
         qy, qx = req
         lx = axis_shape(r, kp, "x", x0, x1, qx, False, ax_, A.c, nx, A.a, what)
@@ -206,7 +221,7 @@ def judge(r, fn, gbox, region, mode, req, axy, tol, aclass, what, crs=None):
         pexp = max(sx, sy) / N
         bad = False
         for axn, ro, neg in (("x", A.a, False), ("y", A.e, True)):
-            if (ro < 0) != neg or abs(abs(Fr(ro)) - pexp) > eps(pexp, pexp):
+            if (ro < 0) != neg or abs(abs(Fr(ro)) - pexp) > pexp / 2**50:
                 r.fail(f"pixel-size:{axn}:{kp}",
                        f"{what}: {axn} pixel size {ro!r}; longest side / {N} = {float(pexp)!r}")
                 bad = True
@@ -221,22 +236,49 @@ def judge(r, fn, gbox, region, mode, req, axy, tol, aclass, what, crs=None):
     return f"{fn}:{mode} x[{lx}] y[{ly}]"
 
 
+def views_agree(r, fn, g, what):
+    """boundingbox / extent of a result describe the footprint given by ITS OWN shape and affine."""
+    A = g.affine
+    ny, nx = g.shape
+    xs = sorted((Fr(A.c), Fr(A.c) + nx * Fr(A.a)))
+    ys = sorted((Fr(A.f), Fr(A.f) + ny * Fr(A.e)))
+    want = (xs[0], ys[0], xs[1], ys[1])
+    e = slack(max(abs(v) for v in want), 0)
+    for name, bb in (("boundingbox", g.boundingbox), ("extent", g.extent.boundingbox)):
+        if any(abs(Fr(float(v)) - w) > e for v, w in zip(bb.bbox, want)):
+            r.fail(f"{fn}:result-{name}-stale",
+                   f"{what}: result {g.shape.yx} {tuple(A)[:6]} reports {name} {tuple(bb.bbox)}, its own "
+                   f"footprint is {tuple(float(w) for w in want)}")
+
+
+def same(r, key, g, g2, what):
+    """Differential clause: two routes to the same request must give the identical GeoBox."""
+    if g2.shape != g.shape or tuple(g2.affine)[:6] != tuple(g.affine)[:6] or g2.crs != g.crs:
+        r.fail(f"differs:{key}",
+               f"{what} -> {g.shape.yx} {tuple(g.affine)[:6]} {g.crs}, but the equivalent call -> "
+               f"{g2.shape.yx} {tuple(g2.affine)[:6]} {g2.crs}")
+
+
 # ---------------------------------------------------------------------------------------------
 # alphabets
 # ---------------------------------------------------------------------------------------------
 # position of the low edge and span of the region, in pixels (values straddling every tolerance)
-LEFT_Q = (0.0, 0.2, -0.2, 3.0, 2.996, 3.004, -7.5, 1000.3, -1e6 + 0.4, 1e7 + 0.3)
-SPAN_Q = (0.0, 0.005, 0.1, 0.99, 0.995, 1.0, 1.004, 1.0099, 1.0101, 2.004, 2.5, 7.0, 100.5, 12345.678, 2e6)
-RES_Q = tuple(s * v for v in (1.0, 10.0, 0.25, 30.0, 0.1, 1 / 3) for s in (1, -1))
+# (3.5: half a pixel off a whole number; 1e8 + 0.3: coordinates of 1e7 m on a 0.1 m grid)
+LEFT_Q = (0.0, 0.2, -0.2, 3.0, 2.996, 3.004, 3.5, -7.5, 1000.3, -1e6 + 0.4, 1e7 + 0.3, 1e8 + 0.3)
+# (2000000.85 = 2e6 * 1.000000425: a ratio within 1e-6 of a round number on a multi-million pixel grid)
+SPAN_Q = (0.0, 0.005, 0.1, 0.99, 0.995, 1.0, 1.004, 1.0099, 1.0101, 2.004, 2.5, 7.0, 100.5, 12345.678, 2e6,
+          2000000.85)
+# (4.5e-6: half a metre in degrees)
+RES_Q = tuple(s * v for v in (1.0, 10.0, 0.25, 30.0, 0.1, 1 / 3, 4.5e-6) for s in (1, -1))
 ANCHOR_Q = ("edge", "center", 0.25, 0.9, ("xy", 0.1, 0.7), "floating")
 TOL_Q = (0.0, 1e-6, 0.01, 0.1)
 TIGHT = (False, True)
 # the other axis: (low edge [px], span [px], signed pixel size)
-SEC_Q = ((-7.5, 2.5, -30.0), (1000.3, 1.004, 0.1), (0.2, 7.0, -1 / 3))
+SEC_Q = ((-7.5, 2.5, -30.0), (1000.3, 1.004, 0.1), (0.2, 7.0, -1 / 3))  # with the primary: every sign pair
 
 LEFT_T = LEFT_Q + (2.95, 3.05, 3 - 5e-7, 3 + 5e-7, -3.004, 123456.7)
-SPAN_T = SPAN_Q + (5e-7, 1 + 5e-7, 1 + 2e-6, 1.09, 1.11, 33.333)
-RES_T = RES_Q + tuple(s * v for v in (0.01, 1000.0, 1 / 7) for s in (1, -1))
+SPAN_T = SPAN_Q + (5e-7, 1 + 5e-7, 1 + 2e-6, 1.09, 1.11, 33.333, 4e6 + 0.004, 4e6 - 0.004)
+RES_T = RES_Q + tuple(s * v for v in (0.01, 1000.0, 1 / 7, 1e5) for s in (1, -1))
 ANCHOR_T = ANCHOR_Q + (("xy", 0.0, 0.5), ("xy", 0.999, 1e-9), 1e-7)
 TOL_T = TOL_Q + (1e-3, 0.3)
 SEC_T = SEC_Q + ((2.996, 1.0101, -1.0),)
@@ -288,8 +330,8 @@ def run_bbox_res(case):
 # ---------------------------------------------------------------------------------------------
 LEFT_W = (0.0, 0.2, -0.2, 3.0, -7.5, 1000.3, -1e6 + 0.4, 1e7 + 0.3)
 SPAN_W = (0.005, 0.1, 0.99, 1.0, 1.004, 2.5, 7.0, 100.5, 12345.678, 2e6)
-UNIT_W = (1.0, 30.0, 0.1, 1 / 3)
-SHAPES_Q = ((1, 1), (3, 5), (7, 2))
+UNIT_W = (1.0, 30.0, 0.1, 1 / 3, 4.5e-6)
+SHAPES_Q = ((1, 1), (3, 5), (7, 2), (4_000_000, 3_000_000))
 SHAPES_T = SHAPES_Q + ((1, 4), (256, 256), (1000, 33))
 SEC_W = ((-7.5, 2.5), (1000.3, 100.5), (0.2, 0.99))
 
@@ -357,6 +399,7 @@ ANCHOR_SPELL = (
     "center", "centre", 0.5, ("enum", "CENTER"), ("xy", 0.5, 0.5),
     0.25, ("xy", 0.25, 0.25), ("xy", 0.0, 0.5), ("xy", 0.5, 0.0), ("xy", 0.7, 0.1),
     "floating", ("enum", "FLOATING"), None,
+    ("np", 0.0), ("np", 0.5), ("np", 0.25), ("xyi", 0, 0), -0.0, ("xy", -0.0, 0.0),
 )
 RES_SPELL = (("s", 10), ("s", 10.0), ("s", -10.0), ("s", 0.1), ("xy", 10, -10), ("xy", 0.1, 0.1),
              ("xy", -1 / 3, 1 / 3), ("xy", 30.0, -10.0))
@@ -366,7 +409,7 @@ REGION_SPELL = ((0.2, 1000.3, 7.0, 2.5), (-7.5, 2.996, 1.004, 100.5), (3.0, -0.2
 
 def gen_spell(tier):
     return itertools.product(BBOX_FORM, RES_SPELL + (("shape", (3, 5)), ("shape", 10)), ANCHOR_SPELL,
-                             TIGHT, REGION_SPELL, (0.01,) if tier != "thorough" else (0.01, 0.0))
+                             (False, True, 0, 1), REGION_SPELL, (0.01, 0) if tier != "thorough" else (0.01, 0.0, 0))
 
 
 def run_spell(case):
@@ -432,6 +475,33 @@ def _poly(kind, x0, y0, x1, y1):
     if kind == "line":
         pts = [(x0, y1), (xm, y0), (x1, ym)]
         return pts, lambda crs: geom.line(pts, crs)
+    # geometries that "never occur"
+    if kind == "point":  # zero span on both axes
+        return [(x0, y0)], lambda crs: geom.point(x0, y0, crs)
+    if kind == "multipoint":
+        pts = [(x0, y1), (x1, y0), (xm, ym)]
+        return pts, lambda crs: geom.multipoint(pts, crs)
+    if kind == "ring":  # LinearRing taken from a polygon
+        pts = [(x0, y0), (x0, y1), (x1, y1), (x1, y0), (x0, y0)]
+        return pts, lambda crs: geom.polygon(pts, crs).exterior
+    if kind == "collection":  # GeometryCollection of a point and a line
+        ln = [(xm, y1), (x1, ym)]
+        return [(x0, y0)] + ln, lambda crs: geom.Geometry(
+            {"type": "GeometryCollection",
+             "geometries": [{"type": "Point", "coordinates": (x0, y0)},
+                            {"type": "LineString", "coordinates": ln}]}, crs)
+    if kind == "multi1":  # single-part multi geometry
+        pts = [(x0, y0), (x1, ym), (xm, y1), (x0, y0)]
+        return pts, lambda crs: geom.multipolygon([[pts]], crs)
+    if kind == "repeat":  # repeated consecutive vertices
+        pts = [(x0, y0), (x0, y0), (x0, y1), (x1, y1), (x1, y1), (x1, y1), (x1, y0), (x0, y0)]
+        return pts, lambda crs: geom.polygon(pts, crs)
+    if kind == "multiline":
+        a, b = [(x0, y0), (xm, y1)], [(x1, ym), (xm, ym)]
+        return a + b, lambda crs: geom.multiline([a, b], crs)
+    if kind == "nocrs":  # geometry without a CRS: lon/lat is assumed, as documented for from_bbox
+        pts = [(x0, y0), (x0, y1), (x1, y1), (x1, y0), (x0, y0)]
+        return pts, lambda crs: geom.polygon(pts, None)
     raise ValueError(kind)
 
 
@@ -442,12 +512,13 @@ def _vbox(pts):
 
 
 KINDS = ("box", "tri", "diamond", "multi", "line")
+KINDS_X = ("point", "multipoint", "ring", "collection", "multi1", "repeat", "multiline", "nocrs")
 POLY_REQ = (("xy", 10.0, -10.0), ("xy", 0.1, 0.1), ("xy", -1 / 3, 30.0), ("s", 0.25), ("xy", 30.0, -10.0),
             ("shape", (3, 5)), ("shape", (7, 2)), ("shape", 10))
 POLY_L = (0.2, -7.5, 2.996, 1000.3, 1e7 + 0.3)
 POLY_S = (0.005, 0.995, 1.0, 1.0101, 7.0, 100.5)
 # deprecated align= is given in CRS units (below the pixel size); the case holds pixel fractions
-ALIGN_Q = ((0.0, 0.0), (0.5, 0.5), (0.3, 0.0), (0.25, 0.9))
+ALIGN_Q = ((0.0, 0.0), (0.5, 0.5), (0.3, 0.0), (0.0, 0.5), (0.25, 0.9))
 
 
 def gen_poly(tier):
@@ -456,6 +527,13 @@ def gen_poly(tier):
             KINDS, POLY_REQ, POLY_L, POLY_S, ((3.004, 2.5), (-1e6 + 0.4, 1.004)) + (((0.0, 12345.678),) if t else ()),
             ANCHOR_T if t else ANCHOR_Q, TIGHT, TOL_Q if t else (0.0, 0.01)):
         yield (kind, req, Lx, Sx, Ly, Sy, ("anchor", aenc), tight, tol)
+    # points, rings, collections, ... (a point has no span: resolution requests only)
+    for kind, req, Lx, Sx, aenc, tight, tol in itertools.product(
+            KINDS_X, POLY_REQ, POLY_L if t else (0.2, 2.996, 1e7 + 0.3), POLY_S if t else (0.005, 1.0101, 100.5),
+            ANCHOR_T if t else ANCHOR_Q, TIGHT, (0.0, 0.01)):
+        if kind == "point" and req[0] == "shape":
+            continue
+        yield (kind, req, Lx, Sx, 3.004, 2.5, ("anchor", aenc), tight, tol)
     # deprecated align=
     for kind, req, Lx, Sx, al, tight in itertools.product(
             KINDS, POLY_REQ[:5], POLY_L, POLY_S, ALIGN_Q, TIGHT):
@@ -491,8 +569,24 @@ def run_poly(case):
         axy, aclass = None, "tight"
     what = _what("from_geopolygon", kind=kind, vertices=pts, req=renc, how=how, anchor=aenc, tight=tight, tol=tol)
     r = R()
+    crs = "epsg:4326" if kind == "nocrs" else CRS0
     g = GeoBox.from_geopolygon(build(CRS0), tight=tight, tol=tol, **kw)
-    r.outcome = judge(r, "from_geopolygon", g, region, mode, req, axy, tol, aclass, what, crs=CRS0) + f" {kind}"
+    r.outcome = judge(r, "from_geopolygon", g, region, mode, req, axy, tol, aclass, what, crs=crs) + f" {kind}"
+    # the same request through the other entry points must give the identical GeoBox
+    if how == "anchor":
+        same(r, f"from_bbox-vs-from_geopolygon:{kind}:{mode}", g,
+             GeoBox.from_bbox(region, crs, tight=tight, tol=tol, **kw), what)
+        if mode == "res":
+            same(r, f"positional-vs-keyword:{kind}", g,
+                 GeoBox.from_geopolygon(build(CRS0), kw["resolution"], None, None, anchor=kw["anchor"], tight=tight,
+                                        tol=tol), what)
+    elif aenc != (0.0, 0.0):
+        same(r, f"align-positional-vs-keyword:{kind}", g,
+             GeoBox.from_geopolygon(build(CRS0), kw["resolution"], None, kw["align"], tight=tight, tol=tol), what)
+        if not tight:
+            same(r, f"align-vs-anchor:{kind}", g,
+                 GeoBox.from_geopolygon(build(CRS0), kw["resolution"], tight=tight, tol=tol,
+                                        anchor=xy_(kw["align"].x / px, kw["align"].y / py)), what)
     return r
 
 
@@ -570,17 +664,20 @@ def run_xcrs(case):
 # ---------------------------------------------------------------------------------------------
 # slice 7: zoom_to(resolution=) of a GeoBox of any orientation (incl. rotated / sheared)
 # ---------------------------------------------------------------------------------------------
-Z_ORG = (0.0, 0.2, -7.5, 1000.3, -1e6 + 0.4, 1e7 + 0.3)
+Z_ORG_T = (0.0, 0.2, -7.5, 1000.3, -1e6 + 0.4, 1e7 + 0.3)
+Z_ORG = (0.2, -7.5, 1000.3, 1e7 + 0.3)
 Z_PIX = (1.0, 30.0, 0.1, 1 / 3)
 Z_SGN = ((1, -1), (1, 1), (-1, -1), (-1, 1), "rot30", "shear")
-Z_SHAPE = ((1, 1), (3, 5), (7, 2), (100, 33))
-Z_RATIO = (0.1, 1 / 3, 0.5, 0.99, 0.995, 1.0, 1.004, 1.0099, 1.0101, 2.0, 2.5, 3.0, 7.0, 100.5)
+Z_SHAPE = ((1, 1), (3, 5), (7, 2), (100, 33), (4_000_000, 3_000_000))
+# incl. ratios within 1e-6 of a round number (long rasters: the difference adds up to pixels) and 1/1024
+Z_RATIO = (0.1, 1 / 3, 0.5, 0.99, 0.995, 1.0, 1.004, 1.0099, 1.0101, 2.0, 2.5, 3.0, 7.0, 100.5,
+           1.000000425, 0.999999575, 0.25000002, 29.9999996, 1 / 1024)
 Z_FORM = ("scalar", "scalar-neg", "++", "--", "-+", "aniso")
 
 
 def gen_zoom(tier):
     t = tier == "thorough"
-    return itertools.product(Z_ORG, Z_PIX, Z_SGN, Z_SHAPE + (((1000, 1), (4096, 4096)) if t else ()),
+    return itertools.product(Z_ORG_T if t else Z_ORG, Z_PIX, Z_SGN, Z_SHAPE + (((1000, 1), (4096, 4096)) if t else ()),
                              Z_RATIO + ((1e-3, 0.9, 1.5, 33.333, 1e4) if t else ()), Z_FORM, (CRS0, None))
 
 
@@ -609,12 +706,399 @@ def run_zoom(case):
     what = _what("zoom_to", base_shape=shape, base_affine=tuple(A)[:6], resolution=renc, crs=crs)
     r = R()
     g = base.zoom_to(resolution=rarg)
+    # the implementation forms the corners in binary64: a*i + b*j + c, terms that may cancel
+    m0 = max(abs(a_) * nx + abs(b_) * ny + abs(c_), abs(d_) * nx + abs(e_) * ny + abs(f_))
     # documented defaults of from_bbox apply: tol = 1/100 of a (new) pixel; no snapping
-    r.outcome = judge(r, "zoom_to", g, region, "res", req, None, 0.01, "tight", what)
+    r.outcome = judge(r, "zoom_to", g, region, "res", req, None, 0.01, "tight", what, m0=m0)
     if isinstance(orient, str):
         r.outcome += " " + orient
     if g.crs != base.crs:
         r.fail("zoom_to:crs", f"{what}: crs {g.crs} expected {base.crs}")
+    # every entry point: method, module level alias, compute_zoom_to, from_bbox of the bounding box
+    same(r, "zoom_to-function-vs-method", g, gbx.zoom_to(base, resolution=rarg), what)
+    shp2, A2 = base.compute_zoom_to(resolution=rarg)
+    same(r, "compute_zoom_to-vs-zoom_to", g, GeoBox(shp2, A2, crs), what)
+    g3 = GeoBox.from_bbox(base.boundingbox, resolution=rarg, tight=True)
+    if g3.shape != g.shape or tuple(g3.affine)[:6] != tuple(g.affine)[:6]:
+        r.fail("differs:from_bbox-of-boundingbox-vs-zoom_to",
+               f"{what} -> {g.shape.yx} {tuple(g.affine)[:6]} but from_bbox(base.boundingbox, resolution=, "
+               f"tight=True) -> {g3.shape.yx} {tuple(g3.affine)[:6]}")
+    views_agree(r, "zoom_to", g, what)
+    return r
+
+
+
+# ---------------------------------------------------------------------------------------------
+# slice 8: both edges of every tolerance window, on both sides of the region at once
+# ---------------------------------------------------------------------------------------------
+TW_TOL = (1e-6, 1e-3, 0.01, 0.1)
+# edge = grid line + f * tol pixels; f < 0: outside the line on the low side / inside on the high side
+TW_F = (-1.1, -1.001, -0.999, -0.9, 0.9, 0.999, 1.001, 1.1)
+TW_K = (3, -7, 1000)
+TW_M = (1, 5, 1000)
+TW_RES = tuple(s * v for v in (0.1, 30.0, 1 / 3) for s in (1, -1))
+TW_ANCHOR = ("edge", "center", 0.25, "floating")
+
+
+def gen_tolwin(tier):
+    t = tier == "thorough"
+    return itertools.product(("x", "y"), TW_TOL, TW_F, TW_F, TW_K + ((10**6,) if t else ()), TW_M,
+                             TW_RES + ((4.5e-6, -4.5e-6, 1000.0, -1000.0) if t else ()), TW_ANCHOR)
+
+
+def run_tolwin(case):
+    prim, tol, f0, f1, k, m, res, aenc = case
+    aarg, axy, aclass = anchor_arg(aenc)
+    p = abs(res)
+    a = 0.3 if axy is None else axy[0]
+    lo = (k + a + f0 * tol) * p
+    hi = (k + m + a + f1 * tol) * p
+    other = _axis(-7.5, 2.5, 30.0)
+    if prim == "x":
+        bbox, rx, ry = (lo, other[0], hi, other[1]), res, -30.0
+    else:
+        bbox, rx, ry = (other[0], lo, other[1], hi), 30.0, res
+    what = _what("from_bbox", bbox=bbox, resolution=(rx, ry), anchor=aenc, tol=tol)
+    r = R()
+    g = GeoBox.from_bbox(bbox, CRS0, resolution=resxy_(rx, ry), anchor=aarg, tol=tol)
+    r.outcome = judge(r, "from_bbox", g, bbox, "res", (rx, ry), axy, tol, aclass, what, crs=CRS0)
+    r.outcome += f" f0{'<' if abs(f0) < 1 else '>'}1 f1{'<' if abs(f1) < 1 else '>'}1"
+    return r
+
+
+# ---------------------------------------------------------------------------------------------
+# slice 9: the same numbers in another encoding
+# ---------------------------------------------------------------------------------------------
+# every coordinate is exactly representable in binary32, so all encodings denote the same region
+ENC_REGION = ((-7.0, 3.0, 12.0, 1001.0), (-7.5, 3.25, 12.375, 1000.375), (100000.125, -0.0, 100007.625, 9.5),
+              (2500000.25, 3.25, 2500007.75, 12.5), (-0.0, -0.0, 0.0, 0.0))
+ENC_REQ = (("s", 5), ("s", 0.5), ("xy", 0.1, -0.1), ("xy", -2, 2), ("shape", (3, 5)), ("shape", 10))
+ENC_ANCHOR = ("edge", "center", 0.25, "floating")
+ENC_BBOX = ("float", "int", "np64", "np32", "list", "arr64", "arr32", "bbox", "bbox-np32", "bbox-int")
+
+
+def _enc_bbox(enc, reg):
+    f = tuple(float(v) for v in reg)
+    if enc == "float":
+        return f
+    if enc in ("int", "bbox-int"):
+        if any(v != int(v) for v in f):
+            return None
+        t = tuple(int(v) for v in f)
+        return t if enc == "int" else BoundingBox(*t, crs=CRS0)
+    if enc == "np64":
+        return tuple(np.float64(v) for v in f)
+    if enc == "np32":
+        return tuple(np.float32(v) for v in f)
+    if enc == "list":
+        return list(f)
+    if enc == "arr64":
+        return np.asarray(f, dtype="float64")
+    if enc == "arr32":
+        return np.asarray(f, dtype="float32")
+    if enc == "bbox":
+        return BoundingBox(*f, crs=CRS0)
+    if enc == "bbox-np32":
+        return BoundingBox(*(np.float32(v) for v in f), crs=CRS0)
+    raise ValueError(enc)
+
+
+def _enc_req(renc):
+    """-> list of (label, kwargs) all denoting the same request"""
+    if renc[0] == "shape" and isinstance(renc[1], tuple):
+        ny, nx = renc[1]
+        return [("tuple", dict(shape=(ny, nx))), ("list", dict(shape=[ny, nx])), ("Shape2d", dict(shape=wh_(nx, ny))),
+                ("np-ints", dict(shape=(np.int64(ny), np.int64(nx))))]
+    if renc[0] == "shape":
+        return [("int", dict(shape=int(renc[1]))), ("float", dict(shape=float(renc[1])))]
+    _, (rx, ry) = res_arg(renc)
+    out = [("Resolution", dict(resolution=resxy_(rx, ry))),
+           ("Resolution-np64", dict(resolution=resxy_(np.float64(rx), np.float64(ry)))),
+           ("Resolution-np32", dict(resolution=resxy_(np.float32(rx), np.float32(ry))))
+           if float(np.float32(rx)) == rx else None]
+    if ry == -rx:
+        out += [("float", dict(resolution=rx)), ("np64", dict(resolution=np.float64(rx)))]
+        if rx == int(rx):
+            out += [("int", dict(resolution=int(rx)))]
+    return [o for o in out if o is not None]
+
+
+def gen_enc(tier):
+    return itertools.product(range(len(ENC_REGION)), ENC_REQ, ENC_ANCHOR, TIGHT, (0.01, 0.0, 0))
+
+
+def run_enc(case):
+    ri, renc, aenc, tight, tol = case
+    reg = ENC_REGION[ri]
+    r = R()
+    if renc[0] == "shape" and (reg[0] == reg[2] or reg[1] == reg[3]):
+        r.outcome, r.nontrivial = "enc:zero-span-shape-request:skipped", False
+        return r
+    aarg, axy, aclass = anchor_arg(aenc)
+    if tight:
+        axy, aclass = None, "tight"
+    mode = "res" if renc[0] != "shape" else ("shape" if isinstance(renc[1], tuple) else "int")
+    req = res_arg(renc)[1] if mode == "res" else renc[1]
+    ref = None
+    n = 0
+    for benc in ENC_BBOX:
+        for rl, kw in _enc_req(renc):
+            b = _enc_bbox(benc, reg)
+            if b is None:
+                continue
+            keep = list(b) if isinstance(b, list) else None
+            what = _what("from_bbox", bbox_encoding=benc, bbox=reg, request_encoding=rl, req=renc, anchor=aenc,
+                         tight=tight, tol=tol)
+            args = (b,) if isinstance(b, BoundingBox) else (b, CRS0)
+            g = GeoBox.from_bbox(*args, anchor=aarg, tight=tight, tol=tol, **kw)
+            n += 1
+            judge(r, f"from_bbox@{benc}", g, reg, mode, req, axy, float(tol), aclass, what, crs=CRS0)
+            if ref is None:
+                ref = g
+            else:
+                same(r, f"encoding:{benc}:request-as-{rl}:{mode}", ref, g, what)
+            if keep is not None and list(b) != keep:
+                r.fail("input-modified:list-bbox", f"{what}: the caller's list was changed to {b}")
+    r.outcome = f"enc:{mode}:{aclass}:{n}-encodings"
+    r.counts = {"encoded_calls": n}
+    return r
+
+
+# ---------------------------------------------------------------------------------------------
+# slice 10: the same CRS in another encoding; CRSs without an EPSG code; stale EPSG tag
+# ---------------------------------------------------------------------------------------------
+_PP = {}
+
+
+def _pp(code):
+    if code not in _PP:
+        _PP[code] = pyproj.CRS.from_epsg(code)
+    return _PP[code]
+
+
+SINU = "+proj=sinu +lon_0=0 +x_0=0 +y_0=0 +R=6371007.181 +units=m +no_defs"
+CRS_FAMILY = {
+    # name -> list of (label, builder of the argument, definition for a fresh pyproj CRS)
+    "utm33": [("int", lambda: 32633, 32633), ("EPSG:", lambda: "EPSG:32633", 32633),
+              ("epsg:", lambda: "epsg:32633", 32633), ("wkt", lambda: _pp(32633).to_wkt(), 32633),
+              ("wkt1", lambda: _pp(32633).to_wkt("WKT1_GDAL"), 32633),
+              ("json", lambda: _pp(32633).to_json_dict(), 32633), ("pyproj", lambda: _pp(32633), 32633),
+              ("pyproj-new", lambda: pyproj.CRS.from_epsg(32633), 32633), ("CRS", lambda: CRS(32633), 32633),
+              ("proj4", lambda: "+proj=utm +zone=33 +datum=WGS84 +units=m +no_defs",
+               "+proj=utm +zone=33 +datum=WGS84 +units=m +no_defs")],
+    "stale": [("wkt-stale-id", lambda: _stale_wkt(), None), ("CRS-stale-id", lambda: CRS(_stale_wkt()), None)],
+    "sinu": [("proj4", lambda: SINU, SINU), ("wkt", lambda: pyproj.CRS.from_user_input(SINU).to_wkt(), SINU),
+             ("pyproj", lambda: pyproj.CRS.from_user_input(SINU), SINU), ("CRS", lambda: CRS(SINU), SINU)],
+    "moll": [("ESRI:", lambda: "ESRI:54009", "ESRI:54009"), ("CRS", lambda: CRS("ESRI:54009"), "ESRI:54009")],
+    "lonlat": [("int", lambda: 4326, 4326), ("epsg:", lambda: "epsg:4326", 4326), ("wkt", lambda: _pp(4326).to_wkt(), 4326),
+               ("pyproj", lambda: _pp(4326), 4326), ("CRS", lambda: CRS("EPSG:4326"), 4326)],
+}
+
+
+def _stale_wkt():
+    """WKT of EPSG:32633 with the central meridian edited to 16.5 and the trailing ID["EPSG",32633] left in place."""
+    w = _pp(32633).to_wkt()
+    w2 = w.replace('"Longitude of natural origin",15', '"Longitude of natural origin",16.5')
+    assert w2 != w and 'ID["EPSG",32633]' in w2
+    return w2
+
+
+def _fresh_crs(fam, defn):
+    if fam == "stale":
+        return pyproj.CRS.from_wkt(_stale_wkt())
+    return pyproj.CRS.from_user_input(defn)
+
+
+CE_SRC = ("lonlat", "sinu", "utm33")
+CE_DST = ("utm33", "stale", "sinu", "moll")
+CE_REGION = {"lonlat": (14.1, 40.2, 14.6, 40.7), "sinu": (1189000.3, 4470000.2, 1232000.9, 4526000.1),
+             "utm33": (423000.4, 4450000.2, 466000.9, 4506000.1)}
+CE_REQ = (("s", 30.0), ("xy", -100.0, 100.0), ("shape", (3, 5)))
+
+
+def gen_crsenc(tier):
+    # (a) region already in that CRS, through every entry point; (b) reprojection between families
+    for fam, members in CRS_FAMILY.items():
+        for i in range(len(members)):
+            yield from itertools.product(("own",), (fam,), (i,), ("",), (0,), CE_REQ, ("edge", ("xy", 0.1, 0.7), "floating"))
+    for sf in CE_SRC:
+        for df in CE_DST:
+            if sf == df:
+                continue
+            yield from itertools.product(("to",), (sf,), range(len(CRS_FAMILY[sf])), (df,), range(len(CRS_FAMILY[df])),
+                                         CE_REQ[:2] if tier != "thorough" else CE_REQ, ("edge", "floating"))
+
+
+def run_crsenc(case):
+    how, sf, si, df, di, renc, aenc = case
+    slabel, sbuild, sdef = CRS_FAMILY[sf][si]
+    aarg, axy, aclass = anchor_arg(aenc)
+    mode = "res" if renc[0] != "shape" else "shape"
+    if mode == "res":
+        rarg, req = res_arg(renc)
+        kw = dict(resolution=rarg)
+    else:
+        req = renc[1]
+        kw = dict(shape=req)
+    r = R()
+    if how == "own":
+        reg = (423000.4, 4450000.2, 466000.9, 4506000.1)
+        pts, build = _poly("tri", *reg)
+        want_crs = CRS(sbuild())
+        what = _what("from_bbox/from_geopolygon", crs_family=sf, crs_encoding=slabel, bbox=reg, req=renc, anchor=aenc)
+        g = GeoBox.from_bbox(reg, sbuild(), anchor=aarg, **kw)
+        r.outcome = judge(r, f"from_bbox@crs-{sf}-{slabel}", g, reg, mode, req, axy, 0.01, aclass, what, crs=want_crs)
+        same(r, f"bbox-with-crs:{sf}:{slabel}", g, GeoBox.from_bbox(BoundingBox(*reg, crs=sbuild()), anchor=aarg, **kw), what)
+        same(r, f"geometry-with-crs:{sf}:{slabel}", g, GeoBox.from_geopolygon(build(sbuild()), anchor=aarg, **kw), what)
+        # every member of the family: the identical grid
+        l0, b0, _ = CRS_FAMILY[sf][0]
+        g0 = GeoBox.from_bbox(reg, b0(), anchor=aarg, **kw)
+        if g0.shape != g.shape or tuple(g0.affine)[:6] != tuple(g.affine)[:6]:
+            r.fail(f"differs:crs-encoding:{sf}:{slabel}",
+                   f"{what} -> {g.shape.yx} {tuple(g.affine)[:6]} but with the CRS given as {l0}: "
+                   f"{g0.shape.yx} {tuple(g0.affine)[:6]}")
+        return r
+    dlabel, dbuild, ddef = CRS_FAMILY[df][di]
+    pts, build = _poly("tri", *CE_REGION[sf])
+    tr = pyproj.Transformer.from_crs(_fresh_crs(sf, sdef), _fresh_crs(df, ddef), always_xy=True)
+    region = _vbox([tr.transform(x, y) for x, y in pts])
+    what = _what("from_geopolygon", src=f"{sf}:{slabel}", crs=f"{df}:{dlabel}", vertices=pts, req=renc, anchor=aenc)
+    g = GeoBox.from_geopolygon(build(sbuild()), crs=dbuild(), anchor=aarg, **kw)
+    r.outcome = judge(r, f"from_geopolygon@{sf}-{slabel}-to-{df}-{dlabel}", g, region, mode, req, axy, 0.01, aclass, what,
+                      crs=CRS(dbuild()))
+    r.outcome = f"{sf}->{df} " + r.outcome.split(" ", 1)[1]
+    return r
+
+
+# ---------------------------------------------------------------------------------------------
+# slice 11: history - lazily filled state, several operations on one instance, process-wide caches
+# ---------------------------------------------------------------------------------------------
+H_REGION = ((0.2 * 30, 1000.3 * 30, 7.2 * 30, 1002.8 * 30), (423000.4, 4450000.2, 466000.9, 4506000.1))
+H_OBJ = ("BoundingBox", "Geometry", "GeoBox")
+H_PRE = ("none", "lazy", "ops", "lazy+ops", "crs-pressure", "helpers")
+H_REQ = (dict(resolution=30.0), dict(resolution=30.0, tight=True), dict(resolution=("xy", -10.0, 10.0), anchor="center"),
+         dict(shape=(3, 5)), dict(shape=10, tight=True), dict(resolution=100.0, anchor=("xy", 0.1, 0.7), tol=0.0),
+         dict(resolution=250.0, crs="epsg:3857"), dict(resolution=0.01, crs="epsg:4326", tight=True))
+_H_OTHER = (dict(resolution=7.0), dict(shape=(2, 2), tight=True), dict(resolution=1000.0, crs="epsg:3857"),
+            dict(resolution=30.0, anchor="floating"))
+
+
+def _h_obj(kind, reg):
+    crs = "epsg:32633"
+    if kind == "BoundingBox":
+        return BoundingBox(*reg, crs=crs)
+    if kind == "Geometry":
+        return geom.box(*reg, crs)
+    x0, y0, x1, y1 = reg  # a GeoBox whose footprint is the region (8 x 4 pixels, exactly)
+    return GeoBox((4, 8), Affine((x1 - x0) / 8, 0.0, x0, 0.0, -(y1 - y0) / 4, y1), crs)
+
+
+def _h_call(kind, obj, rq):
+    """One request on a region object -> GeoBox.  BoundingBox: from_bbox; Geometry: from_geopolygon;
+    GeoBox: zoom_to(resolution=) when that is all that is asked, else from_geopolygon(extent)."""
+    kw = dict(rq)
+    if isinstance(kw.get("resolution"), tuple):
+        kw["resolution"] = res_arg(kw["resolution"])[0]
+    if "anchor" in kw:
+        kw["anchor"] = anchor_arg(kw["anchor"])[0]
+    if kind == "BoundingBox":
+        if "crs" in kw:
+            obj = obj.to_crs(kw.pop("crs"))
+        return GeoBox.from_bbox(obj, **kw)
+    if kind == "Geometry":
+        return GeoBox.from_geopolygon(obj, **kw)
+    if set(kw) == {"resolution", "tight"}:
+        return obj.zoom_to(resolution=kw["resolution"])
+    return GeoBox.from_geopolygon(obj.extent, **kw)
+
+
+def _h_lazy(kind, obj):
+    if kind == "GeoBox":
+        _ = (obj.extent, obj.boundingbox, obj.geographic_extent, obj.footprint("epsg:3857"), obj.crs.epsg,
+             obj.resolution, obj.coordinates, hash(obj), repr(obj))
+    elif kind == "Geometry":
+        _ = (obj.boundingbox, obj.crs.epsg, obj.json, obj.to_crs("epsg:3857"), obj.exterior, hash(obj.crs), repr(obj))
+    else:
+        _ = (obj.polygon, obj.crs.epsg, obj.aoi, hash(obj), repr(obj), obj.span_x)
+
+
+def gen_hist(tier):
+    return itertools.product(range(len(H_REGION)), H_OBJ, H_PRE, range(len(H_REQ)))
+
+
+def run_hist(case):
+    ri, kind, pre, qi = case
+    reg, rq = H_REGION[ri], H_REQ[qi]
+    r = R()
+    what = _what("history", region=reg, object=kind, prelude=pre, request=rq)
+    fresh = _h_call(kind, _h_obj(kind, reg), rq)  # the answer of a fresh object, before any history
+    obj = _h_obj(kind, reg)
+    if "lazy" in pre:
+        _h_lazy(kind, obj)
+    if "ops" in pre:
+        for o in _H_OTHER:
+            _h_call(kind, obj, o)
+        _h_call(kind, obj, rq)
+    if pre == "crs-pressure":
+        _ = [CRS(f"EPSG:{32601 + i}") for i in range(60)] + [CRS(f"EPSG:{32701 + i}") for i in range(60)] + \
+            [CRS(c) for c in (3857, 3577, 4326, 3035, 5070, 2154, 27700, 28355, 3031, 3413)]
+    if pre == "helpers":
+        from odc.geo.math import maybe_int, snap_grid  # pylint: disable=import-outside-toplevel
+        _ = (snap_grid(0.0, 0.0, -1e-300, None, tol=0), snap_grid(-1e300, 1e300, 1e300, 0.999, tol=0.5),
+             maybe_int(float("nan"), 0.1), maybe_int(float("inf"), 0.1), maybe_int(-0.0, 0))
+    g = _h_call(kind, obj, rq)
+    same(r, f"history:{kind}:{pre}", fresh, g, what)
+    views_agree(r, f"history:{kind}:{pre}", g, what)
+    # derived result shares no state with its parent: read the parent's lazy views, then the result's
+    if kind == "GeoBox":
+        _ = obj.extent
+        g2 = obj.zoom_to(resolution=77.0)
+        views_agree(r, f"history:zoom_to-after-parent-extent:{pre}", g2, what)
+    # state independent clauses (a long-lived worker may already be poisoned)
+    if "crs" not in rq:
+        mode = "res" if "resolution" in rq else ("shape" if isinstance(rq["shape"], tuple) else "int")
+        req = (res_arg(rq["resolution"])[1] if isinstance(rq["resolution"], tuple) else (rq["resolution"], -rq["resolution"])) \
+            if mode == "res" else rq["shape"]
+        _, axy, aclass = anchor_arg(rq.get("anchor", "edge"))
+        if rq.get("tight") or (kind == "GeoBox" and set(rq) == {"resolution", "tight"}):
+            axy, aclass = None, "tight"
+        r.outcome = "hist " + judge(r, f"history@{kind}", g, reg, mode, req, axy, rq.get("tol", 0.01), aclass, what,
+                                    crs="epsg:32633", m0=2 * max(abs(v) for v in reg))
+    else:
+        r.outcome = f"hist {kind} reprojected"
+    r.outcome += f" {pre}"
+    return r
+
+
+# ---------------------------------------------------------------------------------------------
+# slice 12: accessor path - rasterize(poly, resolution) builds its grid with from_geopolygon
+# ---------------------------------------------------------------------------------------------
+RZ_RES = (("s", 10.0), ("s", 10), ("s", 0.25), ("xy", 10.0, -10.0), ("xy", 3.0, 7.0), ("xy", -0.5, 0.5))
+
+
+def gen_rast(tier):
+    return itertools.product(("box", "tri", "multi", "line"), RZ_RES, (0.2, 2.996, -7.5, 1000.3), (0.995, 1.0101, 7.0, 33.3),
+                             (False, True))
+
+
+def run_rast(case):
+    from odc.geo.xr import rasterize  # pylint: disable=import-outside-toplevel
+
+    kind, renc, L, S, all_touched = case
+    rarg, req = res_arg(renc)
+    x0, x1 = _axis(L, S, abs(req[0]))
+    y0, y1 = _axis(3.004, 2.5, abs(req[1]))
+    pts, build = _poly(kind, x0, y0, x1, y1)
+    region = _vbox(pts)
+    what = _what("rasterize(...).odc.geobox", kind=kind, vertices=pts, how=renc, all_touched=all_touched)
+    r = R()
+    xx = rasterize(build(CRS0), rarg, all_touched=all_touched)
+    g = xx.odc.geobox
+    # documented defaults: pixel edges snapped to the axes, tol = 1/100
+    r.outcome = "rasterize " + judge(r, "rasterize", g, region, "res", req, (0.0, 0.0), 0.01, "edge", what, crs=CRS0)
+    same(r, "rasterize-vs-from_geopolygon", GeoBox.from_geopolygon(build(CRS0), resolution=rarg), g, what)
+    if xx.shape != tuple(g.shape):
+        r.fail("rasterize:array-shape", f"{what}: array {xx.shape}, geobox {g.shape}")
     return r
 
 
@@ -639,6 +1123,20 @@ def slices(tier):
         S("polygon-crs", gen_xcrs, run_xcrs,
           "from_geopolygon(crs=other) incl. 'utm' (and from_bbox(..., 'utm')): region = fresh pyproj transform "
           "of the vertices"),
+        S("tol-window", gen_tolwin, run_tolwin,
+          "from_bbox(resolution=): low AND high edge at grid line + f*tol, f in +-{0.9, 0.999, 1.001, 1.1}, x tol x "
+          "grid index x span x signed pixel size x anchor, either axis"),
+        S("encodings", gen_enc, run_enc,
+          "same region/request as float, int, numpy scalar (64/32 bit), list, array, BoundingBox; Resolution / number / "
+          "numpy; shape tuple / list / Shape2d / numpy ints; N int / float; tol 0 / 0.0: judged + identical results"),
+        S("crs-encodings", gen_crsenc, run_crsenc,
+          "CRS as int / 'EPSG:n' / 'epsg:n' / WKT2 / WKT1 / PROJJSON / pyproj / CRS / proj4, CRSs without EPSG code "
+          "(sinusoidal, ESRI:54009), WKT with a stale EPSG id: own-CRS entry points and reprojection between families"),
+        S("history", gen_hist, run_hist,
+          "one BoundingBox / Geometry / GeoBox instance: lazy views read first, other requests first, 130 other CRSs "
+          "first, helpers with unusual arguments first - answer identical to a fresh object; result views not stale"),
+        S("rasterize", gen_rast, run_rast,
+          "rasterize(geometry, resolution).odc.geobox: judged and identical to from_geopolygon(resolution=)"),
         S("zoom-res", gen_zoom, run_zoom,
           "GeoBox.zoom_to(resolution=) of boxes of every orientation (4 axis aligned, rotated, sheared): region = "
           "exact bounding box of the footprint"),
